@@ -267,7 +267,19 @@ def web_case(rng):
         b'\r\nContent-Length: 0\r\n\r\n'
     if rng.random() < 0.3:
         head = mutate(rng, head)
-    return {'entry': 'web', 'wire': head, 'with_password': rng.random() < 0.5, 'seg_seed': rng.randrange(1 << 30)}
+    # sometimes through a proxy: relayed (absolute-form) or, for https, through a CONNECT tunnel whose grant is hostile too
+    via = rng.choice([None, None, None, 'proxy', 'tunnel'])
+    connect_wire = None
+    if via == 'tunnel':
+        connect_wire = rng.choice([b'HTTP/1.1 200 Connection established\r\n\r\n', b'HTTP/1.1 200 OK\r\nContent-Length: 5\r\n\r\nhello',
+                                   b'HTTP/1.1 407 Proxy Authentication Required\r\nProxy-Authenticate: Basic\r\nContent-Length: 0\r\n\r\n',
+                                   b'HTTP/1.1 502 Bad Gateway\r\nTransfer-Encoding: chunked\r\n\r\n5\r\nerror\r\n0\r\n\r\n',
+                                   b'HTTP/1.0 200\r\n\r\n', b'garbage\r\n\r\n', b'', b'HTTP/1.1 200 OK\r\nContent-Length: 99\r\n\r\nshort',
+                                   b'HTTP/1.1 100 Continue\r\n\r\nHTTP/1.1 200 OK\r\n\r\n', b'HTTP/1.1 204 No Content\r\n\r\n'])
+        if rng.random() < 0.4:
+            connect_wire = mutate(rng, connect_wire)
+    return {'entry': 'web', 'wire': head, 'with_password': rng.random() < 0.5, 'seg_seed': rng.randrange(1 << 30), 'via': via,
+            'connect_wire': connect_wire}
 
 
 def run_web(case, part):
@@ -285,14 +297,21 @@ def run_web(case, part):
         net = netsim.Net().install()
         try:
             ok = b'HTTP/1.1 200 OK\r\nContent-Length: 2\r\n\r\nok'
-            peer = netsim.HTTPScriptPeer([{'pieces': random_pieces(rng, case['wire']), 'then': 'keep'}] +
-                                         [{'pieces': [ok], 'then': 'keep'}] * 4)
+            script = [{'pieces': random_pieces(rng, case['wire']), 'then': 'keep'}] + [{'pieces': [ok], 'then': 'keep'}] * 4
+            if case.get('connect_wire') is not None:
+                script.insert(0, {'pieces': random_pieces(rng, case['connect_wire']) if case['connect_wire'] else [],
+                                  'then': 'keep' if case['connect_wire'] else 'eof'})
+            peer = netsim.HTTPScriptPeer(script)
             net.default_peer = peer
-            pool = ConnectionPool(resolver=netsim.StaticResolver())
+            if case.get('via'):
+                from wpull.proxy.client import HTTPProxyConnectionPool
+                pool = HTTPProxyConnectionPool(('127.0.0.1', 3128), resolver=netsim.StaticResolver())
+            else:
+                pool = ConnectionPool(resolver=netsim.StaticResolver())
             jar = CookieJar()
             jar.set_policy(DeFactoCookiePolicy(cookie_jar=jar))
             client = WebClient(http_client=Client(connection_pool=pool), cookie_jar=CookieJarWrapper(jar))
-            request = Request('http://h.test/start')
+            request = Request('https://h.test/start' if case.get('via') == 'tunnel' else 'http://h.test/start')
             if case['with_password']:
                 request.username, request.password = 'u', 'p'
 
@@ -335,6 +354,8 @@ def run_web(case, part):
     if holder.get('stall'):
         part.count('web_stall_waiting_for_more_bytes')
         return
+    if case.get('via'):
+        part.count('web_via_' + case['via'])
     judge_exception('web', holder.get('exc'), part, case)
 
 
